@@ -66,7 +66,7 @@ Qed.
 Definition op_method (o : op) : N :=
   match o with
   | OLookup _ _ => m_lookup | OForget _ => m_forget | OBatchForget _ _ => m_forget
-  | OGetattr _ => m_getattr | OSetattr _ _ _ => m_setattr | OFwd m _ _ => m
+  | OGetattr _ => m_getattr | OSetattr _ _ _ _ => m_setattr | OFwd m _ _ => m
   | ORename _ _ _ _ => m_rename | OLink _ _ _ => m_link
   | OReaddir plus _ _ _ _ => if plus then m_readdirplus else m_readdir
   | OUnfwd m => m
@@ -81,7 +81,7 @@ Definition ev_two (s : vfs) (n1 n2 : N) (ev : event) : Prop :=
 Definition routed (s : vfs) (o : op) (ev : event) : Prop :=
   ev_m ev = op_method o /\
   match o with
-  | OLookup n _ | OForget n | OGetattr n | OSetattr n _ _ | OFwd _ n _ | OReaddir _ n _ _ _ => ev_one s n ev /\ ev_ino2 ev = 0
+  | OLookup n _ | OForget n | OGetattr n | OSetattr n _ _ _ | OFwd _ n _ | OReaddir _ n _ _ _ => ev_one s n ev /\ ev_ino2 ev = 0
   | OBatchForget n1 n2 => (ev_one s n1 ev \/ ev_one s n2 ev) /\ ev_ino2 ev = 0
   | ORename n1 _ n2 _ | OLink n1 n2 _ => ev_two s n1 n2 ev
   | OUnfwd _ => False
@@ -214,7 +214,7 @@ Qed.
 (* vacant slot: nothing is reached, and only forget (which has no reply) does not fail *)
 Definition op_inodes (o : op) : list N :=
   match o with
-  | OLookup n _ | OForget n | OGetattr n | OSetattr n _ _ | OFwd _ n _ | OReaddir _ n _ _ _ => [n]
+  | OLookup n _ | OForget n | OGetattr n | OSetattr n _ _ _ | OFwd _ n _ | OReaddir _ n _ _ _ => [n]
   | OBatchForget n1 n2 | ORename n1 _ n2 _ | OLink n1 n2 _ => [n1; n2]
   | OUnfwd _ => []
   end.
